@@ -12,6 +12,7 @@ OPT = ["Oa", "Ob", "Oc", "Od"]          # optional trait names (already in name 
 MOPT = ["Pa", "Pb"]                      # optional traits that also have &mut self methods (no Ref container)
 CODE = {"Gm": 1, "Oa": 2, "Ob": 3, "Oc": 4, "Od": 5, "TtUsize": 6, "TtU64": 7, "Hm": 1, "Pa": 8, "Pb": 9}
 MUTABLE = {"Hm", "Pa", "Pb"}
+CODE.update({"Ma": 10, "Mb": 11})
 
 
 def subsets(xs):
@@ -30,13 +31,15 @@ def trait_defs():
         out.append("#[cglue_trait]\npub trait %s {\n    fn %s(&self) -> u64;\n}" % (t, meth(t)))
     for t in ["Hm"] + MOPT:
         out.append("#[cglue_trait]\npub trait %s {\n    fn %s(&self) -> u64;\n    fn %s_mut(&mut self, add: u64) -> u64;\n}" % (t, meth(t), meth(t)))
+    for t in ["Ma", "Mb"]:
+        out.append("#[cglue_trait]\npub trait %s {\n    fn %s(&self) -> u64;\n}" % (t, meth(t)))
     out.append("#[cglue_trait]\npub trait Tt<T> {\n    fn tt(&self, v: T) -> u64;\n}")
     return "\n".join(out)
 
 
 def imp_type(name):
     """A payload type implementing every trait; which ones a group sees is decided by cglue_impl_group!"""
-    out = ["pub struct %s { pub id: u64, pub acc: u64, pub dc: DcHeap }" % name,
+    out = ["#[repr(C)] pub struct %s { pub id: u64, pub acc: u64, pub dc: DcHeap }" % name,
            "impl %s { pub fn new(id: u64) -> Self { %s { id, acc: 0, dc: DcHeap::new(id) } } }" % (name, name),
            "impl Gm for %s { fn gm(&self) -> u64 { self.id * 1000 + 1 + self.acc } }" % name]
     for t in OPT:
@@ -44,6 +47,8 @@ def imp_type(name):
     for t in ["Hm"] + MOPT:
         out.append("impl %s for %s { fn %s(&self) -> u64 { self.id * 1000 + %d + self.acc } fn %s_mut(&mut self, add: u64) -> u64 { self.acc += add * %d; self.id * 1000 + %d + self.acc } }" % (
             t, name, meth(t), CODE[t], meth(t), CODE[t], CODE[t]))
+    for t in ["Ma", "Mb"]:
+        out.append("impl %s for %s { fn %s(&self) -> u64 { self.id * 1000 + %d + self.acc } }" % (t, name, meth(t), CODE[t]))
     out.append("impl Tt<usize> for %s { fn tt(&self, v: usize) -> u64 { self.id * 1000 + 6 + v as u64 } }" % name)
     out.append("impl Tt<u64> for %s { fn tt(&self, v: u64) -> u64 { self.id * 1000 + 7 + v } }" % name)
     return "\n".join(out)
@@ -69,7 +74,7 @@ def calls_on(var, traits, mutable, mand, kind):
     return "\n                ".join(st)
 
 
-def emit_family(gname, mandatory, optional, cells, aliases=None, containers=("Box", "Mut", "Ref")):
+def emit_family(gname, mandatory, optional, cells, aliases=None, containers=("Box", "Mut", "Ref"), mand_call=None):
     """group definition + one implementing type per enabled subset + one checker fn per cell"""
     aliases = aliases or {}
     out = []
@@ -79,6 +84,8 @@ def emit_family(gname, mandatory, optional, cells, aliases=None, containers=("Bo
         return aliases.get(t, t)
 
     mand = mandatory if mandatory else "{}"
+    if mand_call:
+        mandatory = mand_call
     w("cglue_trait_group!(%s, %s, { %s });" % (gname, mand, ", ".join(decl(t) for t in optional)))
     for en in subsets(optional):
         ty = "%sImp%s" % (gname, "".join(en) or "None")
@@ -112,7 +119,7 @@ def emit_family(gname, mandatory, optional, cells, aliases=None, containers=("Bo
                         w("        #[allow(unused_mut)] let mut g = group_obj!(&imp as %s);" % gname)
                     mutable_cont = cont != "Ref"
                     if mandatory:
-                        w("        if g.%s() != id * 1000 + 1 { return Err((\"cast:mandatory\".into(), format!(\"{}: mandatory trait not callable on the group\", what))); }" % meth(mandatory))
+                        w("        if g.%s() != id * 1000 + %d { return Err((\"cast:mandatory\".into(), format!(\"{}: mandatory trait not callable on the group\", what))); }" % (meth(mandatory), CODE[mandatory]))
                     if op == "check":
                         w("        let ok = check!(g impl %s);" % impl_list)
                         w("        if ok != %s { return Err((\"cast:decision\".into(), format!(\"{}: returned {}, expected %s\", what, ok))); }" % (str(expect).lower(), str(expect).lower()))
@@ -143,7 +150,7 @@ def emit_family(gname, mandatory, optional, cells, aliases=None, containers=("Bo
                         for t in optional:
                             w("                if check!(back impl %s) != %s { return Err((\"cast:upcast\".into(), format!(\"{}: after cast + upcast, check!(impl %s) is not what the type enabled\", what))); }" % (t, str(t in en).lower(), t))
                         if mandatory:
-                            w("                if back.%s() != id * 1000 + 1 + acc { return Err((\"cast:upcast_dispatch\".into(), format!(\"{}: mandatory trait on the upcast group reaches another instance\", what))); }" % meth(mandatory))
+                            w("                if back.%s() != id * 1000 + MANDCODE + acc { return Err((\"cast:upcast_dispatch\".into(), format!(\"{}: mandatory trait on the upcast group reaches another instance\", what))); }".replace("MANDCODE", str(CODE[mandatory])) % meth(mandatory))
                         w("            }")
                         w("            None => { if %s { return Err((\"cast:decision\".into(), format!(\"{}: failed although every requested trait is enabled\", what))); } }" % str(expect).lower())
                         w("        }")
@@ -168,35 +175,154 @@ def emit_family(gname, mandatory, optional, cells, aliases=None, containers=("Bo
     return "\n".join(out)
 
 
-def main():
-    tier, out_dir = sys.argv[1], sys.argv[2]
-    os.makedirs(out_dir, exist_ok=True)
-    nmax = 3 if tier == "quick" else 4
-    cells = []
-    parts = ["// @generated by gen/groups_gen.py (tier %s) — do not edit" % tier,
+def emit_layout(gname, mandatory_list, optional, layouts, containers):
+    """C04: raw-word layout of the group object, seen the way a C caller sees it.
+    mandatory_list / optional are in DECLARATION order; the expected order is name order."""
+    out = []
+    w = out.append
+    order = sorted(mandatory_list) + sorted(optional)
+    nvt = len(order)
+    for en in subsets(optional):
+        ty = "%sImp%s" % (gname, "".join(en) or "None")
+        for cont in containers:
+            for ctx in (False, True):
+                fname = "layout_%s_%s_%s_%s" % (gname.lower(), "".join(en).lower() or "none", cont.lower(), "arc" if ctx else "noctx")
+                layouts.append((fname, gname, en, cont, ctx))
+                w("pub fn %s() -> Result<u64, (String, String)> {" % fname)
+                w("    let what = \"layout of group %s (enabled {%s}) in a %s container %s context\";" % (gname, ",".join(en), cont, "with a CArc" if ctx else "without"))
+                w("    let id: u64 = 7;")
+                w("    #[allow(unused_mut)] let mut imp = %s::new(id);" % ty)
+                w("    let arc = ::std::sync::Arc::new(5u64);")
+                if cont == "Box":
+                    inst = "imp"
+                elif cont == "Mut":
+                    inst = "&mut imp"
+                    w("    let imp_addr = &imp as *const _ as usize;")
+                else:
+                    inst = "&imp"
+                    w("    let imp_addr = &imp as *const _ as usize;")
+                if ctx:
+                    w("    let g = group_obj!((%s, cglue::arc::CArc::<u64>::from(arc.clone())) as %s);" % (inst, gname))
+                else:
+                    w("    let g = group_obj!(%s as %s);" % (inst, gname))
+                inst_words = 2 if cont == "Box" else 1
+                ctx_words = 3 if ctx else 0
+                total = nvt + inst_words + ctx_words
+                w("    let words: Vec<usize> = words_of(&g);")
+                w("    if words.len() != %d { return Err((\"layout:size\".into(), format!(\"{}: object is {} words, expected %d (= %d vtable pointers + %d instance + %d context, no temporary storage)\", what, words.len()))); }" % (total, total, nvt, inst_words, ctx_words))
+                w("    let cont_ptr = unsafe { (&g as *const _ as *const usize).add(%d) } as *const ::core::ffi::c_void;" % nvt)
+                for k, t in enumerate(order):
+                    present = (t in mandatory_list) or (t in en)
+                    if present:
+                        w("    if words[%d] == 0 { return Err((\"layout:vtbl_missing\".into(), format!(\"{}: word %d (vtable of %s) is null\", what))); }" % (k, k, t))
+                        if t in ("TtUsize", "TtU64"):
+                            w("    if unsafe { call_slot0_arg(words[%d], cont_ptr, 5) } != id * 1000 + %d + 5 { return Err((\"layout:vtbl_order\".into(), format!(\"{}: word %d is not the vtable of %s (name order: mandatory first, then optional)\", what))); }" % (k, CODE[t], k, t))
+                        else:
+                            w("    if unsafe { call_slot0(words[%d], cont_ptr) } != id * 1000 + %d { return Err((\"layout:vtbl_order\".into(), format!(\"{}: word %d is not the vtable of %s (name order: mandatory first, then optional)\", what))); }" % (k, CODE[t], k, t))
+                    else:
+                        w("    if words[%d] != 0 { return Err((\"layout:vtbl_not_null\".into(), format!(\"{}: word %d (optional vtable of %s, not enabled) is not null\", what))); }" % (k, k, t))
+                if cont == "Box":
+                    w("    if words[%d] == 0 || words[%d] == 0 { return Err((\"layout:instance\".into(), format!(\"{}: CBox instance/drop_fn words are null\", what))); }" % (nvt, nvt + 1))
+                    w("    if unsafe { *(words[%d] as *const u64) } != id { return Err((\"layout:instance\".into(), format!(\"{}: the word after the vtable pointers is not the instance pointer\", what))); }" % nvt)
+                else:
+                    w("    if words[%d] != imp_addr { return Err((\"layout:instance\".into(), format!(\"{}: the word after the vtable pointers is not the instance pointer\", what))); }" % nvt)
+                if ctx:
+                    w("    if words[%d] != ::std::sync::Arc::as_ptr(&arc) as usize || words[%d] == 0 || words[%d] == 0 { return Err((\"layout:context\".into(), format!(\"{}: the context (CArc: instance, clone_fn, drop_fn) does not follow the instance\", what))); }" % (nvt + inst_words, nvt + inst_words + 1, nvt + inst_words + 2))
+                # cast to the full enabled set keeps the bit pattern; the final form keeps mandatory + requested + container
+                if en:
+                    impl_list = " + ".join(en)
+                    w("    let c = match cast!(g impl %s) { Some(c) => c, None => return Err((\"layout:cast\".into(), format!(\"{}: cast to the enabled set failed\", what))) };" % impl_list)
+                    w("    if words_of(&c) != words { return Err((\"layout:cast_bits\".into(), format!(\"{}: cast changed the bit pattern of the object\", what))); }")
+                    w("    let back = c.upcast();")
+                    w("    if words_of(&back) != words { return Err((\"layout:upcast_bits\".into(), format!(\"{}: upcast changed the bit pattern of the object\", what))); }")
+                    w("    let f = match into!(back impl %s) { Some(f) => f, None => return Err((\"layout:into\".into(), format!(\"{}: into the enabled set failed\", what))) };" % impl_list)
+                    forder = sorted(mandatory_list) + sorted(en)
+                    w("    let fw = words_of(&f);")
+                    w("    if fw.len() != %d { return Err((\"layout:final_size\".into(), format!(\"{}: final object is {} words, expected %d\", what, fw.len()))); }" % (len(forder) + inst_words + ctx_words, len(forder) + inst_words + ctx_words))
+                    w("    let fcont = unsafe { (&f as *const _ as *const usize).add(%d) } as *const ::core::ffi::c_void;" % len(forder))
+                    for k, t in enumerate(forder):
+                        if t in ("TtUsize", "TtU64"):
+                            w("    if fw[%d] == 0 || unsafe { call_slot0_arg(fw[%d], fcont, 5) } != id * 1000 + %d + 5 { return Err((\"layout:final_order\".into(), format!(\"{}: word %d of the final object is not the vtable of %s\", what))); }" % (k, k, CODE[t], k, t))
+                        else:
+                            w("    if fw[%d] == 0 || unsafe { call_slot0(fw[%d], fcont) } != id * 1000 + %d { return Err((\"layout:final_order\".into(), format!(\"{}: word %d of the final object is not the vtable of %s\", what))); }" % (k, k, CODE[t], k, t))
+                    w("    if fw[%d..] != words[%d..] { return Err((\"layout:final_container\".into(), format!(\"{}: the container part changed in the final object\", what))); }" % (len(forder), nvt))
+                    w("    drop(f);")
+                else:
+                    w("    drop(g);")
+                if cont != "Box":
+                    w("    drop(imp);")
+                w("    Ok(digest(&(words.len(), %d)))" % total)
+                w("}")
+    return "\n".join(out)
+
+
+FAM_TOML = """[package]
+name = "%s"
+version = "0.1.0"
+edition = "2021"
+
+[dependencies]
+cglue = { path = "/repo/cglue" }
+cglue-macro = { path = "/repo/cglue-macro" }
+h_objbase = { path = "../../../h_objbase" }
+instr = { path = "../../../instr" }
+explore = { path = "../../../explore" }
+"""
+
+CELL_STRUCT = "pub use h_objbase::harness::{Cell, LayoutCell};"
+
+
+def write_if_changed(path, text):
+    os.makedirs(os.path.dirname(path), exist_ok=True)
+    if not os.path.exists(path) or open(path).read() != text:
+        with open(path, "w") as f:
+            f.write(text)
+
+
+def family_crate(out_dir, crate, gname, mandatory_list, optional, aliases=None, containers=("Box", "Mut", "Ref")):
+    cells, layouts = [], []
+    mand = mandatory_list[0] if len(mandatory_list) == 1 else None
+    parts = ["// @generated by gen/groups_gen.py — do not edit",
              "#![allow(unused_variables, unused_mut, unused_assignments, dead_code, clippy::all)]",
-             "use crate::support::*;", "use cglue::*;", trait_defs()]
-    for n in range(1, nmax + 1):
-        parts.append(emit_family("Gn%d" % n, "Gm", OPT[:n], cells))
-    # a group without mandatory traits
-    parts.append(emit_family("Gopt", None, OPT[:2], cells))
-    # aliased generic instantiations
-    parts.append(emit_family("Gali", "Gm", ["TtUsize", "TtU64"], cells, aliases={"TtUsize": "Tt<usize> = TtUsize", "TtU64": "Tt<u64> = TtU64"}))
-    # traits with &mut self methods (no by-ref container possible)
-    parts.append(emit_family("Gmut", "Hm", MOPT, cells, containers=("Box", "Mut")))
-    reg = ["pub struct Cell { pub name: &'static str, pub group: &'static str, pub enabled: &'static str, pub requested: &'static str, pub container: &'static str, pub op: &'static str, pub expect: bool, pub run: fn() -> Result<u64, (String, String)> }",
-           "pub fn cells() -> Vec<Cell> {", "    vec!["]
+             "use h_objbase::support::*;", "use cglue::*;", "use cglue_macro::check;", CELL_STRUCT, trait_defs()]
+    if len(mandatory_list) <= 1:
+        parts.append(emit_family(gname, mand, optional, cells, aliases=aliases, containers=containers))
+    else:
+        # several mandatory traits, declared out of name order (layout only; the cast cells use the first)
+        parts.append(emit_family(gname, "{ %s }" % ", ".join(mandatory_list), optional, cells, aliases=aliases, containers=containers, mand_call=mandatory_list[0]))
+    parts.append(emit_layout(gname, mandatory_list, optional, layouts, containers))
+    reg = ["pub fn cells() -> Vec<Cell> {", "    vec!["]
     for (fname, g, en, req, cont, op, expect) in cells:
         reg.append("        Cell { name: \"%s\", group: \"%s\", enabled: \"%s\", requested: \"%s\", container: \"%s\", op: \"%s\", expect: %s, run: %s }," % (
             fname, g, "+".join(en), "+".join(req), cont, op, str(expect).lower(), fname))
     reg.append("    ]")
     reg.append("}")
-    text = "\n".join(parts) + "\n" + "\n".join(reg) + "\n"
-    path = os.path.join(out_dir, "g_groups_%s.rs" % tier)
-    if not os.path.exists(path) or open(path).read() != text:
-        with open(path, "w") as f:
-            f.write(text)
-    print("generated %d cells (%s)" % (len(cells), tier))
+    reg.append("pub fn layouts() -> Vec<LayoutCell> {")
+    reg.append("    vec![")
+    for (fname, g, en, cont, ctx) in layouts:
+        reg.append("        LayoutCell { name: \"%s\", group: \"%s\", enabled: \"%s\", container: \"%s\", context: %s, run: %s }," % (fname, g, "+".join(en), cont, str(ctx).lower(), fname))
+    reg.append("    ]")
+    reg.append("}")
+    write_if_changed(os.path.join(out_dir, crate, "Cargo.toml"), FAM_TOML % crate)
+    write_if_changed(os.path.join(out_dir, crate, "src", "lib.rs"), "\n".join(parts) + "\n" + "\n".join(reg) + "\n")
+    return len(cells), len(layouts)
+
+
+def main():
+    out_dir = sys.argv[1]
+    tot = [0, 0]
+
+    def add(r):
+        tot[0] += r[0]
+        tot[1] += r[1]
+    for n in range(1, 5):
+        add(family_crate(out_dir, "hg_gn%d" % n, "Gn%d" % n, ["Gm"], OPT[:n]))
+    add(family_crate(out_dir, "hg_gopt", "Gopt", [], OPT[:2]))
+    add(family_crate(out_dir, "hg_gali", "Gali", ["Gm"], ["TtUsize", "TtU64"], aliases={"TtUsize": "Tt<usize> = TtUsize", "TtU64": "Tt<u64> = TtU64"}))
+    add(family_crate(out_dir, "hg_gmut", "Gmut", ["Hm"], MOPT, containers=("Box", "Mut")))
+    # mandatory and optional traits declared out of name order
+    add(family_crate(out_dir, "hg_gord", "Gord", ["Mb", "Ma"], ["Ob", "Oa"]))
+    print("generated %d cast cells, %d layout cells" % tuple(tot))
 
 
 if __name__ == "__main__":
